@@ -100,6 +100,10 @@ def gen_mol_spec(rng, cfg, small=False):
         spec = {'k': 'file', 'f': rng.choice(['isomorphism.sdf', 'isomorphism.sdf', 'mcs.sdf', 'hbonds.sdf', 'stereo.sdf']), 'i': rng.randrange(400)}
         if cfg.get('calc_ct'):
             spec['ct'] = True
+    elif r > 0.994 and not small:
+        # around the V2000 size limit (999 atoms / bonds): the V2000 writers must refuse cleanly, V3000 and MRV must carry it
+        n = rng.choice([998, 999, 1000, 1001, 1400])
+        spec = {'k': 'smi', 's': 'C' * (n - 3) + rng.choice(['N', 'O', '[O-]']) + 'CC', 'edits': []}
     elif r > 0.9 and not small:
         sub_cfg = dict(cfg, file_share=0.0, name_p=0.0, meta_p=0.0)
         spec = {'k': 'join', 'a': gen_mol_spec(rng, sub_cfg, True), 'b': gen_mol_spec(rng, sub_cfg, True),
@@ -394,3 +398,48 @@ def diff_field(d):
         if '.' + f in p:
             return f
     return 'roles' if p.startswith(('.r', '.p', '.a')) or 'len' in d else 'other'
+
+
+def view_features(v):
+    """Reach probes: which of the things the property enumerates a round-tripped record actually contained."""
+    out = set()
+    mols = [v] if v.get('kind') == 'mol' else v['r'] + v['p'] + v['a']
+    if v.get('kind') == 'rxn':
+        out.add('rxn')
+        if v['a']:
+            out.add('rxn:reagents')
+        if not v['r']:
+            out.add('rxn:no-reactants')
+        if not v['p']:
+            out.add('rxn:no-products')
+        if len(v['r']) > 1 or len(v['p']) > 1:
+            out.add('rxn:several-members-on-a-side')
+    if v.get('meta'):
+        out.add('meta')
+        if any('\n' in str(x) for x in v['meta'].values()):
+            out.add('meta:multi-line-value')
+    if v.get('name'):
+        out.add('title')
+    for m in mols:
+        nums = [a[0] for a in m['atoms']]
+        if nums != list(range(1, len(nums) + 1)):
+            out.add('atom-numbers-not-1..n')
+        if len(nums) > 99:
+            out.add('atoms>99')
+        if len(nums) > 999:
+            out.add('atoms>999')
+        if not m['bonds']:
+            out.add('no-bonds')
+        for _, _, iso, ch, rad in m['atoms']:
+            if iso:
+                out.add('isotope')
+            if ch:
+                out.add('charge:%+d' % ch)
+            if rad:
+                out.add('radical')
+        for _, _, o in m['bonds']:
+            out.add('bond-order:%d' % o)
+        st = m.get('stereo')
+        if st:
+            out.add('stereo-labels')
+    return out
